@@ -27,6 +27,8 @@ def run(ctx):
     t2 = execute(ctx, "http_exec", rb, "random")
     acc2, f2 = validate_and_report(ctx, "HttpRef_Trace", "HttpRef_Trace.cfg", t2, "random",
                                    H.classify, rb)
+    if not f1 and not ctx.violations:
+        strict_pass(ctx, "SwarmStrict_Http.cfg", t1, "http_edgecover", max_events=8000 if ctx.quick() else None)
     if not f1:
         binding_selftest(ctx, "HttpRef_Trace", "HttpRef_Trace.cfg", t1, H.mutate_counts)
     ctx.coverage.update({
